@@ -267,6 +267,12 @@ pub(crate) async fn shared_rng(
     let id_bytes = (i as u16).to_be_bytes();
     buf_id[32..].copy_from_slice(&id_bytes);
     let commitment = commit(&buf_id);
+    #[cfg(feature = "__verif")]
+    let buf = {
+        let mut buf = buf;
+        crate::verif::tap_bytes("rng_multi_seed", 0, &mut buf);
+        buf
+    };
 
     // Step 2) a) Send the commitments to all parties for multi-party cointossing.
     // Broadcast multi-party commitments.
@@ -334,6 +340,14 @@ pub(crate) async fn shared_rng_pairwise(
     }
 
     // Step 2) Send and receive commitments concurrently for pairwise cointossing.
+    #[cfg(feature = "__verif")]
+    let bufvec = {
+        let mut bufvec = bufvec;
+        for (k, b) in bufvec.iter_mut().enumerate() {
+            crate::verif::tap_bytes("rng_pair_seed", k, b);
+        }
+        bufvec
+    };
 
     let commitments = scatter(channel, i, "RNG comm", &commitment_vec).await?;
 
@@ -456,6 +470,8 @@ async fn fabitn(
     let r: Vec<Vec<Block>> = (0..three_rho)
         .map(|_| (0..blocks).map(|_| aes_rand.random()).collect())
         .collect();
+    #[cfg(feature = "__verif")]
+    crate::verif::probe("abit_r0", crate::ot::block_to_u128(r[0][0]));
 
     // Step 3 b) Compute xj and xjmac for each party, broadcast xj.
     // We batch messages and send xjmac with xj as well, as from Step 3 d).
@@ -618,6 +634,8 @@ pub(crate) async fn fashare(
             dm.extend(&mac.0.to_be_bytes());
         }
         d1[r] = d0[r] ^ delta.0;
+        #[cfg(feature = "__verif")]
+        crate::verif::tap_bytes("fashare_dm", r, &mut dm);
         let c0 = commit(&d0[r].to_be_bytes());
         let c1 = commit(&d1[r].to_be_bytes());
         let cm = commit(&dm);
@@ -951,6 +969,8 @@ async fn faand(
     // Use SliceRandom::shuffle for unbiased random permutation
     let mut indices: Vec<usize> = (0..lprime).collect();
     indices.shuffle(shared_rand);
+    #[cfg(feature = "__verif")]
+    crate::verif::probe_vec("bucket_perm", indices.iter().map(|x| *x as u64));
 
     // Distribute shuffled indices into buckets using chunks
     // Since indices.len() == lprime == l * b, chunks_exact(b) gives us exactly l chunks of size b
@@ -1023,6 +1043,11 @@ pub(crate) async fn beaver_aand(
 
         de_shares.push((a ^ alpha, b ^ beta));
         d_e_dmac_emac.push((a.0 ^ alpha.0, b.0 ^ beta.0, Mac(0), Mac(0)));
+    }
+    #[cfg(feature = "__verif")]
+    for (j, (d, e, _, _)) in d_e_dmac_emac.iter_mut().enumerate() {
+        crate::verif::tap_bool("beaver_d", j, d);
+        crate::verif::tap_bool("beaver_e", j, e);
     }
     let scatter_data: Vec<Vec<(bool, bool, Mac, Mac)>> = (0..n)
         .map(|k| {
@@ -1099,6 +1124,13 @@ async fn check_dvalue(
         let (_, y, _) = &bucket[0];
         for (_, y_next, _) in bucket.iter().skip(1) {
             d_values[j].push(y.0 ^ y_next.0);
+        }
+    }
+
+    #[cfg(feature = "__verif")]
+    for (j, d) in d_values.iter_mut().enumerate() {
+        for (m, b) in d.iter_mut().enumerate() {
+            crate::verif::tap_bool("dvalue_share", j * 8 + m, b);
         }
     }
 
